@@ -4,6 +4,7 @@ import Martian.JsonBytes
 import Martian.InvocationText
 import Martian.InvocationJson
 import Martian.InvocationFork
+import Martian.InvocationSort
 import Driver.Util
 
 /-!
@@ -426,6 +427,11 @@ def handle (op : String) (args : List String) : Option String :=
           boolStr (Martian.InvocationText.floatsOkBinds g bs) ++ " cons=" ++
           boolStr (Martian.InvocationFork.splitsConsistent bs) ++ " text=" ++
           hexOfBytes (Martian.InvocationFork.printFork g decId id bs) ++ " data=" ++ data)
+  | "sortkeys", [e] => do
+    -- member order (C16-M1): the Go map of the members read out in printing order; `sorted=<b> <exp>`
+    let e ← parseExpStr e
+    pure ("sorted=" ++ boolStr (Martian.InvocationSort.sortedE e) ++ " " ++
+      join (showExp (Martian.InvocationSort.sortE e)))
   | "encmap", [h, m] => do
     -- sorted-key raw-message map writer: `<khex>:<vhex>,…` (`.` = empty map)
     let h ← if h == "0" then some false else if h == "1" then some true else none
